@@ -1,8 +1,8 @@
 #!/bin/bash
 # Developer command: independently confirm a sub-agent's seeded change in a scratch worktree of /repo, then store it under /verif/seeded/.
 # usage: verify_seed.sh <Cxx> <k> [features]
-ID="$1"; K="$2"; FEAT="${3:-}"
-SRC=/tmp/seed/$ID
+ID="$1"; K="$2"; FEAT="${3:-}"; ROOT="${4:-/tmp/seed}"; OUTK="${5:-$K}"
+SRC=$ROOT/$ID
 WT=/tmp/vs_${ID}_$K
 TGT=/tmp/vs_tgt_${ID}_$K
 FARGS=""; [ -n "$FEAT" ] && FARGS="--features $FEAT"
@@ -24,14 +24,14 @@ npass=$(grep -E "^test result: ok" /tmp/vs_${ID}_$K.suite.log | sed -E 's/.*ok\.
 cp "$SRC/demo$K.rs" tests/zz_demo.rs
 if cargo test --offline $FARGS --test zz_demo >/tmp/vs_${ID}_$K.demo.log 2>&1; then demo=pass; else demo=FAIL; fi
 rm tests/zz_demo.rs
-echo "$ID-$K: unchanged-demo=$base suite-with-change=$suite($npass tests) demo-with-change=$demo"
+echo "$ID-$OUTK: unchanged-demo=$base suite-with-change=$suite($npass tests) demo-with-change=$demo"
 if [ "$base" = pass ] && [ "$suite" = pass ] && [ "$demo" = FAIL ]; then
-  D=/verif/seeded/$ID-$K; mkdir -p "$D"
+  D=/verif/seeded/$ID-$OUTK; mkdir -p "$D"
   cp "$SRC/seed$K.patch" "$D/patch.diff"; cp "$SRC/demo$K.rs" "$D/demo.rs"
-  python3 - "$ID" "$K" "$npass" "$FEAT" <<'PY'
+  python3 - "$ID" "$OUTK" "$npass" "$FEAT" "$SRC" <<'PY'
 import sys,json,re
-ID,K,npass,feat=sys.argv[1:5]
-notes=open('/tmp/seed/%s/NOTES.md'%ID).read() if True else ''
+ID,K,npass,feat,src=sys.argv[1:6]
+notes=open(src+'/NOTES.md').read()
 meta=dict(property=ID, seed=int(K), source="independent sub-agent given only the property text and a scratch worktree",
           needs_to_manifest="see notes", notes=notes[:6000],
           confirmed=dict(unchanged_tree_demo="pass", suite_with_change="pass (%s tests incl. doctests)"%npass, demo_with_change="fail"),
